@@ -10,7 +10,7 @@ scratch path.
 
 Body grammar (JSON lists; booleans may be 0/1 or true/false):
   ['nop'] ['rc',k] ['rn',k] ['sr',b] ['nest',b,B] ['fr',caught] ['cap'] ['seq',A,B] ['h',k,B]
-  ['fx',form,[k..],[[k,k']..],B] ['fc',form,[k..],[[k,k']..],k] ['rp','d'|'n'|'r<k>',B]
+  ['fx',form,[k..],[[k,k']..],B] ['fc',form,[k..],[[k,k']..],k] ['rp','d'|'n'|'w'|'r<k>',B]
   ['rwc','N'|'none'|k]
   fx / fc take an optional last element [yes, no]: codes of the objects the predicate returns for the ids
         in the table / for every other id (default ['T', 'F']); see VALS - any Python object, only its truth
@@ -23,11 +23,13 @@ Body grammar (JSON lists; booleans may be 0/1 or true/false):
   ['hnt',k,b,B,LATE]  try: raise E[k] / except: with sre(reraise=b) as c': B   and, after the try, LATE on c'
 """
 import contextlib
+import errno
 import itertools
 import logging
 import os
 import re
 import shutil
+import stat
 import sys
 import tempfile
 import traceback
@@ -83,6 +85,11 @@ ASSUMPTIONS = [
 
 KINDS = ['plain', 'args', 'chained', 'prior', 'base', 'ctx']
 FORMS = [0, 1, 2, 3, 4, 5]
+# what the protected path of remove_path_on_error is (really built in a scratch directory): absent, a regular
+# file, a directory, a symbolic link to a file / to a directory / to nothing (dangling) / to itself (loop)
+PATHS = ['absent', 'file', 'dir', 'lfile', 'ldir', 'dangling', 'loop']
+# remove= : default (delete_if_exists), a function that returns, one that delegates to delete_if_exists, raising
+REMOVERS = ['d', 'n', 'w', 'r0', 'r1']
 PRIOR_LEN = 2
 
 
@@ -332,7 +339,7 @@ def render(body, spy):
                 lines.append(p + '%s(E[%d])' % (fexpr, b[4]))
         elif t == 'rp':
             rm = b[1]
-            arg = 'PATH' if rm == 'd' else ('PATH, remove=RMS[%r]' % (rm if rm == 'n' else int(rm[1:])))
+            arg = 'PATH' if rm == 'd' else ('PATH, remove=RMS[%r]' % (rm if rm in ('n', 'w') else int(rm[1:])))
             head = 'with FU.remove_path_on_error(%s):' % arg
             if spy:
                 i = fresh()
@@ -432,6 +439,12 @@ class Env:
 
         self.make_remove = make_remove
         self.noop = lambda path: path
+
+        def delegating_remove(path):
+            fileutils.delete_if_exists(path)
+
+        self.delegating = delegating_remove
+        self.twins = {}
 
         def make_filters(E, specs):
             """(FILT, OBJ) for the filter operations of one scenario, in rendering order.  All instance-method
@@ -539,6 +552,7 @@ class Env:
                     if c2.co_name == 'pred':
                         self.codes[c2] = 'P'
         self.codes[make_remove([], 0).__code__] = 'R'
+        self.codes[delegating_remove.__code__] = 'R'
         return self
 
     def __exit__(self, *a):
@@ -558,22 +572,66 @@ class Env:
             tb = tb.tb_next
         return out
 
-    def set_path(self, kind):
-        p = self.path
+    def build_path(self, p, kind):
+        """make `p` a path of the given kind (link targets live next to it and are never the protected path)"""
         if os.path.isdir(p) and not os.path.islink(p):
             os.rmdir(p)
         elif os.path.lexists(p):
             os.unlink(p)
+        tf, td = p + '.target-file', p + '.target-dir'
         if kind == 'file':
             open(p, 'w').close()
         elif kind == 'dir':
             os.mkdir(p)
+        elif kind == 'lfile':
+            if not os.path.exists(tf):
+                open(tf, 'w').close()
+            os.symlink(tf, p)
+        elif kind == 'ldir':
+            if not os.path.isdir(td):
+                os.mkdir(td)
+            os.symlink(td, p)
+        elif kind == 'dangling':
+            os.symlink(p + '.no-such-target', p)
+        elif kind == 'loop':
+            os.symlink(p, p)
+        elif kind != 'absent':
+            raise ValueError(kind)
 
-    def path_kind(self):
-        p = self.path
+    def set_path(self, kind):
+        self.build_path(self.path, kind)
+
+    def kind_of(self, p):
+        """lstat-sense classification; a link whose target went missing reads as 'dangling'"""
+        if os.path.islink(p):
+            try:
+                st = os.stat(p)
+            except OSError as e:
+                return 'loop' if e.errno == errno.ELOOP else 'dangling'
+            return 'ldir' if stat.S_ISDIR(st.st_mode) else 'lfile'
         if os.path.isdir(p):
             return 'dir'
         return 'file' if os.path.lexists(p) else 'absent'
+
+    def path_kind(self):
+        return self.kind_of(self.path)
+
+    def twin(self, kind):
+        """Reference for the oracle: what a bare os.unlink does to an identically built twin path -
+        'removed' (no directory entry left), 'enoent' (there was none), or 'error' (it cannot be unlinked)."""
+        if kind not in self.twins:
+            q = os.path.join(self.dir, 'twin')
+            self.build_path(q, kind)
+            try:
+                os.unlink(q)
+                res = 'removed' if not os.path.lexists(q) else 'still-there'
+            except FileNotFoundError:
+                res = 'enoent'
+            except OSError:
+                res = 'error'
+            self.build_path(q, 'absent')
+            self.twins[kind] = res
+        return self.twins[kind]
 
     def make_excs(self, kinds):
         E, classes, preset = [], [], []
@@ -660,7 +718,7 @@ def run_impl(env, case, spy=None):
         env.set_path(case['path'])
     env.log, env.pending = [], None
     FILT, OBJ = env.make_filters(E, r.filt) if r.filt else ([], [])
-    RMS = {'n': env.noop}
+    RMS = {'n': env.noop, 'w': env.delegating}
     for k in range(len(E)):
         RMS[k] = env.make_remove(E, k)
     OUT = []
@@ -771,7 +829,7 @@ def random_body(rng, budget, depth=0):
                 acc, rais = rng.choice(PREDS)
                 items.append(['fx', rng.choice(FORMS), acc, rais, sub, list(rng.choice(STYLES))])
             else:
-                items.append(['rp', rng.choice(['d', 'd', 'n', 'r0', 'r1', 'r2']), sub])
+                items.append(['rp', rng.choice(['d', 'd', 'n', 'w', 'r0', 'r1', 'r2']), sub])
             budget -= 1 + sub_budget
         else:
             c = rng.randrange(12)
@@ -857,9 +915,9 @@ def gen_cases(ctx):
                     yield {'flag': 1, 'kinds': kinds, 'path': 'file',
                            'body': ['h', k, ['seq', ['fx', f1, a1, r1, ['rn', 1 - k]],
                                              ['seq', ['fc', f2, a2, r2, k], ['fc', f1, a1, r1, k]]]]}, 'filter-two/seq'
-    for rm in ('d', 'n', 'r0', 'r1'):
-        for path in ('absent', 'file', 'dir'):
-            for inner in small:
+    for rm in REMOVERS:
+        for path in PATHS:
+            for inner in (small if path in ('absent', 'file', 'dir') and rm != 'w' or not ctx.quick else small[:15]):
                 kinds = [rng.choice(KINDS), rng.choice(KINDS), 'plain']
                 yield {'flag': 1, 'kinds': kinds, 'path': path, 'body': ['rp', rm, inner]}, 'rpoe'
             for kind in KINDS:
@@ -887,7 +945,7 @@ def gen_cases(ctx):
     for _ in range(4000 if ctx.quick else 150000):
         body = random_body(rng, rng.randrange(1, 10))
         yield {'flag': rng.randrange(2), 'kinds': [rng.choice(KINDS) for _ in range(3)],
-               'path': rng.choice(['absent', 'file', 'dir']), 'body': body}, 'random'
+               'path': rng.choice(PATHS), 'body': body}, 'random'
 
 
 def correspondence(ctx):
@@ -1211,7 +1269,9 @@ class Spy:
                     self.fail('rpoe-baseexception-not-passed', '%s in, %s out' % (w(val), w(out)))
                 return
             raising = rm.startswith('r') and self.view.E[int(rm[1:])] is not val
-            if raising or (rm == 'd' and path0 == 'dir'):
+            # reference: what a bare os.unlink does to an identically built twin of the protected path
+            twin = self.env.twin(path0) if rm in ('d', 'w') else None
+            if raising or twin == 'error':
                 # remove itself failed: the new exception propagates, the original is logged
                 want = self.view.E[int(rm[1:])] if raising else None
                 ok = (out is want) if raising else (isinstance(out, OSError) and self.view.index(out) is None)
@@ -1227,9 +1287,11 @@ class Spy:
             if self.chain_lost(r.get('inchain'), out):
                 return self.fail('rpoe-chain-lost', 'the original %s was re-raised but %s'
                                  % (w(out), self.chain_lost(r.get('inchain'), out)))
-            if rm == 'd' and path1 != 'absent':
-                return self.fail('rpoe-path-not-removed', 'path is %s after the error' % path1)
-            if rm != 'd' and path1 != path0:
+            if rm in ('d', 'w') and path1 != 'absent':
+                # twin is 'removed' or 'enoent' here: no directory entry may be left (lexists sense)
+                return self.fail('rpoe-path-not-removed', 'the path was %s (os.unlink on a twin: %s) and is %s after '
+                                 'the error' % (path0, twin, path1))
+            if rm not in ('d', 'w') and path1 != path0:
                 return self.fail('rpoe-path-changed', 'custom remove: path %s -> %s' % (path0, path1))
             if dlog != (1 if rm.startswith('r') else 0):
                 return self.fail('rpoe-logged', 'log +%d' % dlog)
@@ -1327,14 +1389,14 @@ def search(ctx, seeds, full=False):
                            'body': ['fx', f1, a1, r1, ['fx', f2, a2, r2, ['rn', k]]]}
                     yield {'flag': 1, 'kinds': ['plain', 'plain', 'plain'], 'path': 'file',
                            'body': ['h', k, ['seq', ['fc', f2, a2, r2, k], ['fc', f1, a1, r1, k]]]}
-        for rm in ('d', 'n', 'r0', 'r1'):
-            for path in ('absent', 'file', 'dir'):
+        for rm in REMOVERS:
+            for path in PATHS:
                 for kind in KINDS:
                     for inner in (['rn', 0], ['nop']):
                         yield {'flag': 1, 'kinds': [kind, 'plain', 'plain'], 'path': path, 'body': ['rp', rm, inner]}
         for _ in range(n):
             yield {'flag': rng.randrange(2), 'kinds': [rng.choice(KINDS) for _ in range(3)],
-                   'path': rng.choice(['absent', 'file', 'dir']),
+                   'path': rng.choice(PATHS),
                    'body': random_body(rng, rng.randrange(1, 9))}
 
     with Env() as env:
